@@ -299,6 +299,8 @@ type encCase struct {
 	bound     int64 // Encode only: scores <= bound get the offset
 	hasOffset bool
 	direct    bool // no Phred<->Solexa scale conversion in the case
+	// Encode only: the range guard is evaluated on an unsigned value
+	guardUnsigned bool
 	why       string
 }
 
@@ -374,6 +376,24 @@ func encodeCase(p *packages.Package, cc *ast.CaseClause) *encCase {
 	ec := &encCase{pos: cc.Pos()}
 	direct := true
 	n := 0
+	// upperGuard finds the `x <= B` / `x < B` conjunct of a guard condition.
+	var upperGuard func(e ast.Expr) *ast.BinaryExpr
+	upperGuard = func(e ast.Expr) *ast.BinaryExpr {
+		be, ok := unparen(e).(*ast.BinaryExpr)
+		if !ok {
+			return nil
+		}
+		if be.Op == token.LAND {
+			if g := upperGuard(be.X); g != nil {
+				return g
+			}
+			return upperGuard(be.Y)
+		}
+		if _, isConst := constInt(p, be.Y); isConst && (be.Op == token.LEQ || be.Op == token.LSS) {
+			return be
+		}
+		return nil
+	}
 	for _, s := range cc.Body {
 		switch s := s.(type) {
 		case *ast.AssignStmt:
@@ -381,14 +401,14 @@ func encodeCase(p *packages.Package, cc *ast.CaseClause) *encCase {
 				direct = false
 			}
 		case *ast.IfStmt:
-			be, ok := unparen(s.Cond).(*ast.BinaryExpr)
-			if !ok || s.Init != nil || s.Else != nil {
+			if s.Init != nil {
 				continue
 			}
-			b, okb := constInt(p, be.Y)
-			if !okb || (be.Op != token.LEQ && be.Op != token.LSS) {
+			be := upperGuard(s.Cond)
+			if be == nil {
 				continue
 			}
+			b, _ := constInt(p, be.Y)
 			if be.Op == token.LSS {
 				b--
 			}
@@ -397,16 +417,28 @@ func encodeCase(p *packages.Package, cc *ast.CaseClause) *encCase {
 				if !ok || len(as.Rhs) != 1 {
 					continue
 				}
+				found := false
 				if as.Tok == token.ADD_ASSIGN {
 					if k, ok := constInt(p, as.Rhs[0]); ok {
 						ec.offset, ec.bound, ec.hasOffset = k, b, true
-						n++
+						found = true
 					}
 				} else if as.Tok == token.ASSIGN {
-					if add, ok := unparen(as.Rhs[0]).(*ast.BinaryExpr); ok && add.Op == token.ADD {
-						if k, ok := constInt(p, add.Y); ok {
-							ec.offset, ec.bound, ec.hasOffset = k, b, true
-							n++
+					ast.Inspect(as.Rhs[0], func(x ast.Node) bool {
+						if add, ok := x.(*ast.BinaryExpr); ok && add.Op == token.ADD && !found {
+							if k, ok := constInt(p, add.Y); ok && constOf(p, add.X) == nil {
+								ec.offset, ec.bound, ec.hasOffset = k, b, true
+								found = true
+							}
+						}
+						return true
+					})
+				}
+				if found {
+					n++
+					if tv, ok := p.TypesInfo.Types[be.X]; ok {
+						if bt, ok := tv.Type.Underlying().(*types.Basic); ok && bt.Info()&types.IsUnsigned != 0 {
+							ec.guardUnsigned = true
 						}
 					}
 				}
@@ -471,6 +503,15 @@ func ruleQuality(c *Ctx) {
 			c.bad(rule, key+"-offset-agree", ecl.Pos(), fmt.Sprintf("offset applied up to score %d, i.e. byte %d; the printable range ends at '~' (126)", e.bound, e.bound+e.offset))
 		default:
 			c.ok(rule, key+"-offset-agree", ecl.Pos(), fmt.Sprintf("Encode +%d for scores <= %d, Decode -%d, bound+offset = '~'", e.offset, e.bound, d.offset))
+		}
+		// A signed score type has printable negative scores (Solexa -5..-1 are ';'..'?'):
+		// the range guard must see the signed value, not its unsigned image.
+		if scale == "Qsolexa" {
+			if e.guardUnsigned {
+				c.bad(rule, key+"-negative-scores", ecl.Pos(), "the score is converted to an unsigned byte before the `<= "+fmt.Sprint(e.bound)+"` range test, so every negative Solexa score (e.g. -5..-1, which print as ';'..'?') fails the test, never receives the +"+fmt.Sprint(e.offset)+" offset and is encoded as a byte >= 128 that does not decode back")
+			} else {
+				c.ok(rule, key+"-negative-scores", ecl.Pos(), "the range guard is evaluated on the signed score: negative printable scores receive the offset")
+			}
 		}
 	}
 	for _, n := range encs {
